@@ -457,6 +457,7 @@ pub fn configs(thorough: bool) -> Vec<(String, Vec<Vec<Call>>, usize)> {
             ("cmp", json!({"<": [{"var": "n"}, {"var": "a"}, "9"]})),
             ("in", json!({"in": [{"var": "n"}, {"var": "xs"}]})),
             ("log", json!({"log": {"var": "a"}})),
+            ("paths", json!({"cat": [{"var": "b.c"}, "|", {"var": "xs.0"}, "|", {"var": "xs.-1"}, "|", {"var": "a.1"}]})),
         ];
         let rules: Vec<(&str, Arc<Value>)> = fam.into_iter().map(|(n, r)| (n, Arc::new(r))).collect();
         for i in 0..rules.len() {
@@ -561,6 +562,68 @@ pub fn run(ctx: &mut Ctx) {
         ctx.sample_force(json!({"config": name, "threads": bodies.len(), "preemption_bound": bound, "schedules": st.schedules, "scheduling_points_max": st.max_points, "distinct_stdout_interleavings": st.interleavings.len(),
             "thread_bodies": bodies.iter().map(|b| Value::Array(b.iter().map(|c| json!({"rule": *c.rule, "data": *c.data})).collect())).collect::<Vec<_>>()}));
     }
+}
+
+/// PROVISO (sampling, not exhaustive, not the deciding step): the same thread bodies free-running -
+/// no token, every thread repeats its calls in a tight loop after a common barrier - so that
+/// interleavings finer than a hook point (inside code that has no hook, e.g. newly added shared
+/// state) get a chance to occur. Every result is still compared with the isolated one; a mismatch
+/// is a real observed failure and is reported, a silent run proves nothing beyond E3.
+pub fn stress(ctx: &mut Ctx, budget_ms: u64) {
+    use std::sync::Barrier;
+    let cfgs = configs(ctx.tier_thorough);
+    let mine: Vec<_> = cfgs.into_iter().enumerate().filter(|(i, _)| (*i as u64 + ctx.seed) % ctx.nshards == ctx.shard).map(|(_, c)| c).collect();
+    if mine.is_empty() {
+        return;
+    }
+    let per_cfg = std::time::Duration::from_millis((budget_ms / mine.len() as u64).max(5));
+    let mut rounds_total = 0u64;
+    for (name, bodies, _) in mine {
+        if name.starts_with("deep-chain") {
+            continue;
+        }
+        let iso: Vec<Vec<Obs>> = bodies.iter().map(|b| b.iter().map(isolated).collect()).collect();
+        let expected: Vec<Vec<Outcome>> = iso.iter().map(|t| t.iter().map(|o| o.out.clone()).collect()).collect();
+        let t0 = std::time::Instant::now();
+        let mut mismatch: Option<String> = None;
+        while t0.elapsed() < per_cfg && mismatch.is_none() {
+            ctx.heartbeat(&json!({"free_run_config": name}));
+            let barrier = Arc::new(Barrier::new(bodies.len()));
+            let mut hs = Vec::new();
+            for (t, body) in bodies.iter().cloned().enumerate() {
+                let barrier = barrier.clone();
+                let exp = expected[t].clone();
+                hs.push(std::thread::spawn(move || {
+                    barrier.wait();
+                    for rep in 0..40 {
+                        for (k, c) in body.iter().enumerate() {
+                            let o = match std::panic::catch_unwind(std::panic::AssertUnwindSafe(|| jsonlogic_rs::apply(&c.rule, &c.data))) {
+                                Ok(Ok(v)) => Outcome::Ok(v),
+                                Ok(Err(e)) => Outcome::Err(e.to_string()),
+                                Err(_) => Outcome::Panic("panic in thread".into(), "-".into()),
+                            };
+                            if !same_out(&o, &exp[k]) {
+                                return Some(format!("thread {} call {} repetition {}: {:?} instead of {:?}", t, k, rep, o, exp[k]));
+                            }
+                        }
+                    }
+                    None
+                }));
+            }
+            for h in hs {
+                if let Ok(Some(m)) = h.join() {
+                    mismatch = Some(m);
+                }
+            }
+            rounds_total += 1;
+            let _ = exec::drain_stdout();
+        }
+        if let Some(m) = mismatch {
+            let threads: Vec<Value> = bodies.iter().map(|b| Value::Array(b.iter().map(|c| json!({"rule": *c.rule, "data": *c.data})).collect())).collect();
+            ctx.fail("free-run (sampling proviso)", json!({"config": name, "threads": threads, "free_running": true}), "every concurrent call returns its isolated result".into(), m, None);
+        }
+    }
+    crate::history::add_extra(ctx, "free_run_rounds_sampling_proviso", rounds_total);
 }
 
 /// Replay one recorded schedule without the explorer.
